@@ -23,6 +23,21 @@ class C17(Prop):
     def generate(self, rng, tier, idx):
         plan = gen_session(rng, tier, peer_mode="tagged", nsolves=rng.choice([1, 1, 2, 3]), class_duals=True,
                            decorations=[] if rng.random() < 0.5 else None)
+        # label stress: repeated queries at one (named) point, and several points carrying the same name
+        first_solve = next(k for k, op in enumerate(plan["ops"]) if op["op"] == "solve")
+        extra = []
+        funcs = [op["out"] for op in plan["ops"][:first_solve] if op["op"] == "func" and op["cls"] != "LinearOperator"]
+        pts = [op["out"] for op in plan["ops"][:first_solve] if op["op"] in ("point", "plin")]
+        if funcs and pts and rng.random() < 0.5:
+            for k in range(rng.choice([1, 2])):
+                extra.append({"op": "oracle", "out": ["rep_g%d" % k, "rep_v%d" % k], "f": rng.choice(funcs),
+                              "x": rng.choice(pts)})
+        if rng.random() < 0.35:
+            shared = rng.choice(["x", "pt", "Point_0", "Point_1"])
+            named = [op for op in plan["ops"][:first_solve] if op["op"] in ("point", "stationary")]
+            for op in rng.sample(named, min(len(named), rng.choice([1, 2, 2]))):
+                op["name"] = shared
+        plan["ops"] = plan["ops"][:first_solve] + extra + plan["ops"][first_solve:]
         if rng.random() < 0.15:
             # accessor before the first solve (must not fabricate a table of numbers)
             f = next((op["out"] for op in plan["ops"] if op["op"] == "func"), None)
